@@ -194,5 +194,7 @@ package ratelimiter
 //@   ensures [C05.executor.refused_exceeded] w == -1 ==> ncalls(innerFn) == 0 && result.Error == ErrExceeded
 //@   ensures [C05.executor.admitted] ncalls(innerFn) <= 1 && (ncalls(innerFn) == 1 ==> result == ret(innerFn, 1) && arg(innerFn, 1, 0) == exec && w != -1)
 //@   ensures [C16.ratelimiter.exceeded] (w == -1 && e.onRateLimitExceeded != nil ==> ncalls(e.onRateLimitExceeded) == 1) && (ncalls(innerFn) == 1 ==> ncalls(e.onRateLimitExceeded) == 0)
+//@   inlinecalls (*rateLimiter).acquirePermitsWithMaxWait
+//@   ensures [C08.ratelimiter.wait_reports_recorded_cause] w != -1 && ncalls(innerFn) == 0 ==> ncalls(exec.Canceled) == 1 && ncalls(exec.LastError) == 1 && result.Error == reti(exec.LastError, 1)
 //@   havoc
 //@   modifies calls(innerFn), calls(e.stats.acquirePermits), calls(e.onRateLimitExceeded), calls(exec.CopyWithResult), calls(exec.Context), calls(ctx.Done), calls(ctx.Err), canceled(ctx), calls(background().Done), calls(background().Err), canceled(background()), calls(exec.Canceled), calls(exec.LastError)
